@@ -32,12 +32,6 @@ def hexe (s : Str) : String :=
 def list (l : List Str) : String := "[" ++ " ".intercalate (l.map hexe) ++ "]"
 def opt (o : Option Str) : String := match o with | some s => "some " ++ hexe s | none => "none"
 
-def collectImpl (next : Str → P.Res) : Nat → Str → List Str
-  | 0, _ => []
-  | fuel+1, s => match next s with
-    | .word w rest => w :: collectImpl next fuel rest
-    | _ => []
-
 def parseEnv : Parse.Env :=
   { keyChar := fun c => c.isAlphanum || c == '-' || c.toNat ≥ 128, validRaw := fun r => (P.unquoteValue true r).isSome }
 
@@ -56,8 +50,8 @@ def step (line : String) : String :=
   | ["unquote", a] => match P.unquoteValue true (hexd a) with
       | some s => "ok " ++ hexe s
       | none => "err"
-  | ["split_word", a] => "ok " ++ list (collectImpl P.Impl.next ((hexd a).length + 1) (hexd a))
-  | ["split_strv", a] => "ok " ++ list (collectImpl P.Impl.strvNext ((hexd a).length + 1) (hexd a))
+  | ["split_word", a] => "ok " ++ list (P.splitArgs (hexd a))
+  | ["split_strv", a] => "ok " ++ list (P.splitStrv (hexd a))
   | ["parse", a] => match Parse.parse parseEnv (hexd a) with
       | .ok u => "ok " ++ dumpUnit u
       | .error _ => "err"
